@@ -291,6 +291,59 @@ def compare_docs(a, b, opts, kind=V2):
     return None
 
 
+EXPONENTS = ["1e-05", "1e+16", "1E3", "1.5e3", "2e5", "1.0e-05", "1e22", "-4E-2"]
+
+
+def str_vs_path(doc_text, file_type="jsonschema", suffix=".json"):
+    """the same text handed over as a string and as a file (the suffix must not matter either)"""
+    workdir = Path(tempfile.mkdtemp(prefix="c15", dir=lib.WORK))
+    try:
+        p = workdir / ("doc" + suffix)
+        p.write_text(doc_text)
+        a, ea = run(doc_text, file_type, {})
+        b, eb = run(p, file_type, {})
+        if (a is None) != (b is None):
+            return f"the text generates as {'a string' if a is not None else 'a file'} only ({ea or eb})"
+        if a is not None and classes_of(a) != classes_of(b):
+            diff = [k for k in set(classes_of(a)) | set(classes_of(b)) if classes_of(a).get(k) != classes_of(b).get(k)]
+            return f"handing the same text over as a {suffix} file changes classes {sorted(diff)}"
+        return None
+    finally:
+        shutil.rmtree(workdir, ignore_errors=True)
+
+
+def exponent_texts():
+    """JSON texts with numbers in exponent notation in positions the schema model does not coerce"""
+    for e in EXPONENTS:
+        yield ('{"title": "Root", "type": "object", "properties": {"tolerance": {"type": "number", "default": %s}, '
+               '"scale": {"enum": [%s, 1]}, "k": {"const": %s}, "bounded": {"type": "number", "minimum": %s}}}' % (e, e, e, e))
+
+
+def auto_detect_docs():
+    """one OpenAPI document (several KB of components) written with its keys in different orders; the input type is left to be inferred"""
+    schemas = {f"Thing{i}": {"type": "object", "description": "d" * 40, "properties": {f"field_{j}": {"type": "string", "description": "text " * 6} for j in range(6)}} for i in range(6)}
+    body = {"info": {"title": "t", "version": "1"}, "paths": {}, "components": {"schemas": schemas}}
+    first = {"openapi": "3.0.0", **body}
+    last = {**body, "openapi": "3.0.0"}
+    import yaml
+    return {"json/openapi-first": json.dumps(first), "json/openapi-last": json.dumps(last), "json/sorted": json.dumps(first, sort_keys=True),
+            "yaml/openapi-first": yaml.safe_dump(first, sort_keys=False), "yaml/sorted-keys": yaml.safe_dump(first), "yaml/openapi-last": yaml.safe_dump(last, sort_keys=False)}
+
+
+def auto_detect():
+    docs = auto_detect_docs()
+    ref, err = run(docs["json/openapi-first"], "openapi", {})
+    if ref is None:
+        return None
+    for name, text in docs.items():
+        t, e = run(text, "auto", {})
+        if t is None:
+            return f"{name}: generation with the input type left to be inferred fails ({e}); with the type given it succeeds"
+        if classes_of(t) != classes_of(ref):
+            return f"{name}: with the input type left to be inferred the classes differ from the OpenAPI reading ({sorted(set(classes_of(t)) ^ set(classes_of(ref)))[:6]})"
+    return None
+
+
 def in_known_class(defs, root, opts):
     return False
 
@@ -327,6 +380,21 @@ def falsify(ctx):
         why = json_vs_yaml(jt)
         if why:
             report("json-vs-yaml:" + sv, f"string value {sv!r}: {why}", {"json_text": jt})
+    # the same JSON text as a string and as a .json / .yaml / suffix-less file, with exponent numbers where nothing coerces them
+    for jt in exponent_texts():
+        for suffix in (".json", ".yaml", ""):
+            ctx.count("eval_e2e", 2)
+            ctx.bucket("family", "str-vs-path")
+            ctx.nontrivial("svp:" + jt[60:90] + suffix)
+            why = str_vs_path(jt, "jsonschema", suffix)
+            if why:
+                report(f"str-vs-path:{suffix}:{jt[60:100]}", f"JSON text with exponent numbers: {why}", {"str_vs_path": [jt, "jsonschema", suffix]})
+    ctx.count("eval_e2e", 7)
+    ctx.bucket("family", "auto-detect")
+    ctx.nontrivial("auto-detect")
+    why = auto_detect()
+    if why:
+        report("auto-detect", why, {"auto_detect": True})
     # the draft-4 flags in every combination vs the numeric form
     for (t, fmin, fmax), d4, d6 in draft4_pairs():
         for opts in ({}, {"field_constraints": True}):
@@ -386,6 +454,10 @@ def falsify(ctx):
 
 
 def _replay(r):
+    if "str_vs_path" in r:
+        return str_vs_path(*r["str_vs_path"])
+    if "auto_detect" in r:
+        return auto_detect()
     if "pair" in r:
         return compare_docs(r["pair"][0], r["pair"][1], r["opts"])
     if "openapi" in r:
@@ -401,7 +473,7 @@ def replay_finding(ctx, f):
 
 def replay(ctx, payload):
     r = payload.get("replay", payload)
-    if not any(k in r for k in ("openapi", "json_text", "defs", "pair")):
+    if not any(k in r for k in ("openapi", "json_text", "defs", "pair", "str_vs_path", "auto_detect")):
         print(json.dumps(payload, indent=1)[:3000])
         return 0
     why = _replay(r)
